@@ -19,6 +19,9 @@ func packCaseCoqImpl(c *PackCase, o *PackObs) string {
 		if !isASCII(e.Name) || !isASCII(e.Link) {
 			return ""
 		}
+		if len(e.Body) > 4096 {
+			return "" // large bodies go to the oracles only (a 40 kB literal takes the kernel seconds to read)
+		}
 	}
 	var obs string
 	switch {
